@@ -227,7 +227,19 @@ def run(spec):
                 # ... warm-started from the solution of the preceding problem
                 P.x0 = np.array(first.result.x, dtype=float, copy=True)
                 out.count("runs_warm_started_from_the_solution_of_the_preceding_problem")
-    tr = probes.run_min(P, cfg)
+    hooks = None
+    if spec["kind"] == "random" and int(spec["problem"]["seed"]) % 7 == 6:
+        # a value-function objective: now and then an evaluation of the objective runs a small convex minimisation of its own (same default
+        # line-search constants), also in the middle of a line search of the outer run
+        Qn = gen.make_problem({"family": "qp", "n": 3, "seed": int(spec["problem"]["seed"]) + 17, "cond": 20.0, "box": "mixed", "start": "interior"})
+
+        def on_f_nested(i, x):
+            if i in (1, 2, 3, 5, 8, 13, 21, 34):
+                probes.run_min(Qn, dict(jac="callable", maxcor=3, maxiter=6, maxfun=100))
+
+        hooks = {"on_f": on_f_nested}
+        out.count("runs_whose_objective_runs_a_minimisation_of_its_own")
+    tr = probes.run_min(P, cfg, hooks=hooks)
     where = f"{P.spec['family']} n={P.n} box={P.spec.get('box')} start={P.spec.get('start')} maxcor={spec['maxcor']}"
     pg = judge(out, P, tr, where)
     if spec.get("target_frac") is not None and tr.result is not None and not out.violations:
